@@ -320,6 +320,11 @@ def run(ctx):
                 "3 three-sphere cluster, 4 two-sphere cluster (field), 5 large T-matrix, 6 small T-matrix "
                 "(intensity, points), 7 MieLens, 8 close pair theory=auto, 9 distant pair theory=auto, "
                 "10/11 T-matrix spheroid without/with absorption"})
+    if not quick:
+        # the repository's own test-suite under the recorder: Frame and Deterministic on every
+        # public call those tests make (spec/Session.tla)
+        import session
+        session.validate(ctx)
     ctx.exhaustive = not quick
 
 
